@@ -277,12 +277,11 @@ def c12(report, rng, tier, findings):
     results = pmap(rule_impl, [(c, {'caching': (False, True), 'evals': 2}) for c in cases])
     lines = run_driver([rule_sexp(c) for c in cases])
     judge_rules(report, cases, results, lines, findings, 'C12', nontriv)
-    return ['EqlModel.Props.C12'], [
+    return ['EqlModel.Props.C12', 'EqlModel.Lemmas.RuleBuild'], [
         "branch-closed conditions: each branch's conditions mention the variables its conclusion uses",
         "one Add conclusion per branch; next_rule is outside the property",
-        "the construction (refinement/alternative attachment) is tied to the code by the tree-shape correspondence; its "
-        "agreement with the ripple-down reading of the surface program is proved for the evaluation of the constructed tree "
-        "and checked (not proved) for the construction"]
+        "the construction (refinement/alternative attachment) is transliterated (refineAt/altAt/buildKids) and proved to yield "
+        "the prescribed tree for every program (c12_build_expected); it is tied to the code by the tree-shape correspondence"]
 
 
 # ------------------------------------------------------------------------------------------- C11
